@@ -214,6 +214,17 @@ func c14Scenarios(tier string) []scenario {
 			}
 		}
 	}
+	// a minifier that is done after a prefix of its input and returns nil (or the sink's error) without draining the
+	// pipe, while the producer still has chunks to write: the sink fails at its only write (k=1) or never (k=2); the
+	// later writes may fail with a closed pipe, but Write and Close must return
+	for _, cs := range [][][]byte{{[]byte("titlebody")}, {[]byte("ti"), []byte("tlebody")}, {[]byte("title"), []byte("body")}, {[]byte("t"), []byte("itle"), []byte("bo"), []byte("dy")}} {
+		for k := 1; k <= 2; k++ {
+			scs = append(scs, writerFaultScenario(input{"x/prefix", string(join(cs))}, cs, k, false))
+			for _, kind := range []string{"ResponseWriter", "MiddlewareWithError"} {
+				scs = append(scs, respFaultScenario(kind, input{"x/prefix", string(join(cs))}, cs, k))
+			}
+		}
+	}
 	// failing documents: the minifier's own error must still not hang the wrappers when the sink fails too
 	for _, in := range c12inputs[6:8] {
 		scs = append(scs, writerFaultScenario(in, [][]byte{[]byte(in.in)}, 1, false))
